@@ -105,11 +105,13 @@ structure RbSt where
   /-- the instances in sibling order (kept separately: `lyd_insert_after_node` / `lyd_unlink_ignore_lyds`) -/
   sibs : List RbInst
   serial : Nat
+  /-- the leader carries `lyds_tree` metadata that points to no tree (a duplicate: `lyd_dup_*` copies the metadata, not the tree) -/
+  emptyMeta : Bool := false
 
 def rbGt (d x : RbInst) : Bool := decide (d.1 > x.1)
 
 def rbInsert (st : RbSt) (x : RbInst) : RbSt :=
-  { st with lyds := st.lyds.insert rbGt st.sibs.head? x,
+  { st with lyds := st.lyds.insert rbGt st.sibs x,
             sibs := st.sibs.takeWhile (fun e => !rbGt e x) ++ x :: st.sibs.dropWhile (fun e => !rbGt e x) }
 
 /-- `lyd_unlink`: the red-black node is the one `rb_find` returns for the data node -/
@@ -125,7 +127,7 @@ def rbUnlink (st : RbSt) (i : Nat) : Option (RbInst × RbSt) :=
 
 def rbShow (st : RbSt) : String :=
   let f : RbInst → String := fun d => toString d.1 ++ ":" ++ toString d.2
-  " | " ++ " ".intercalate (Rb.shape f st.lyds.tree) ++ (match st.lyds.tree with | .nil => " M-" | _ => " M0") ++ " V0 =" ++
+  " | " ++ " ".intercalate (Rb.shape f st.lyds.tree) ++ (match st.lyds.tree with | .nil => (if st.emptyMeta && !st.sibs.isEmpty then " M0" else " M-") | _ => " M0") ++ " V0 =" ++
     String.join (st.sibs.map (fun d => " " ++ f d))
 
 def rbStep (acc : String × RbSt) (tok : String) : String × RbSt :=
@@ -179,13 +181,13 @@ def handle (op : String) (args : List String) : String :=
       "ok " ++ " ".intercalate (Rb.shape (fun (k : Int) => toString k) t') ++ " | " ++
         " ".intercalate ((Rb.inorder t).map (fun (k : Int) => toString k))
   | "rbs", [_variant, _desc, _yang, script] =>
-    "ok" ++ (((script.splitOn ",").filter (· ≠ "")).foldl rbStep ("", ⟨Rb.Lyds.empty, [], 0⟩)).1
+    "ok" ++ (((script.splitOn ",").filter (· ≠ "")).foldl rbStep ("", ⟨Rb.Lyds.empty, [], 0, false⟩)).1
   | "rbm", [_variant, _desc, _yang, dscript, sscript] =>
     -- two lists built by rbs scripts, then the second moved onto the first in one call (`lyds_merge`)
     let run := fun (st : RbSt) (sc : String) => (((sc.splitOn ",").filter (· ≠ "")).foldl rbStep ("", st)).2
-    let d := run ⟨Rb.Lyds.empty, [], 0⟩ dscript
+    let d := run ⟨Rb.Lyds.empty, [], 0, false⟩ dscript
     let dup := sscript.startsWith "D"
-    let s := run ⟨Rb.Lyds.empty, [], d.serial⟩ (if dup then (sscript.drop 1).toString else sscript)
+    let s := run ⟨Rb.Lyds.empty, [], d.serial, false⟩ (if dup then (sscript.drop 1).toString else sscript)
     match s.sibs with
     | [] => "err Empty"
     | [x] => if d.sibs.isEmpty then "err Empty" else "ok" ++ rbShow (rbInsert d x)     -- a single node: `lyd_insert_node`
@@ -196,11 +198,13 @@ def handle (op : String) (args : List String) : String :=
   | "rbd", [_variant, _desc, _yang, dscript, sscript] =>
     -- `lyd_merge_siblings(…, LYD_MERGE_DESTRUCT)`: the source instances the target lacks, in sibling order, through `lyds_insert2`
     let run := fun (st : RbSt) (sc : String) => (((sc.splitOn ",").filter (· ≠ "")).foldl rbStep ("", st)).2
-    let d := run ⟨Rb.Lyds.empty, [], 0⟩ dscript
-    let s := run ⟨Rb.Lyds.empty, [], d.serial⟩ sscript
+    -- a leading `D`: the target is replaced by its duplicate — the same instances, no sorting tree
+    let d0 := run ⟨Rb.Lyds.empty, [], 0, false⟩ (if dscript.startsWith "D" then (dscript.drop 1).toString else dscript)
+    let d : RbSt := if dscript.startsWith "D" then { d0 with lyds := ⟨.nil, d0.lyds.n⟩, emptyMeta := d0.lyds.tree matches .node .. } else d0
+    let s := run ⟨Rb.Lyds.empty, [], d.serial, false⟩ sscript
     let moved := s.sibs.filter (fun x => !(d.sibs.any (fun y => y.1 == x.1)))
     let r := moved.foldl (fun (st : RbSt) (x : RbInst) =>
-      ({ st with lyds := Rb.Lyds.insert2 rbGt st.sibs.head? x st.lyds,
+      ({ st with lyds := Rb.Lyds.insert2 rbGt st.sibs x st.lyds,
                  sibs := st.sibs.takeWhile (fun e => !rbGt e x) ++ x :: st.sibs.dropWhile (fun e => !rbGt e x) } : RbSt)) d
     "ok" ++ rbShow r
   | "rbleak", [] => "ok 0"
